@@ -29,9 +29,25 @@ type c07 struct{}
 
 type c07Case struct {
 	H        eng.History `json:"history"`
-	Scenario string      `json:"scenario"`   // install upgrade-add replace rollback-recreate
-	Place    []string    `json:"placements"` // per new resource
-	Test     int         `json:"test"`       // index of the step under test
+	Scenario string      `json:"scenario"`        // install upgrade-add replace rollback-recreate
+	Place    []string    `json:"placements"`      // per new resource
+	Metas    []string    `json:"metas,omitempty"` // per new resource: ownership metadata its template renders
+	NS       []string    `json:"ns,omitempty"`    // per new resource: namespace ("" = the release namespace)
+	Test     int         `json:"test"`            // index of the step under test
+}
+
+// one direct run of setMetadataVisitor / checkOwnership (pkg/action/validate.go) on an object's
+// label and annotation maps
+type c07Stamp struct {
+	RN     string            `json:"rn"`
+	NS     string            `json:"ns"`
+	Force  bool              `json:"force"`
+	Labels map[string]string `json:"labels"`
+	Annots map[string]string `json:"annots"`
+	Owned  bool              `json:"owned"` // checkOwnership(obj, rn, ns) == nil, before stamping
+	Err    bool              `json:"err"`   // setMetadataVisitor returned an error
+	OutL   map[string]string `json:"out_labels,omitempty"`
+	OutA   map[string]string `json:"out_annots,omitempty"`
 }
 
 type c07Req struct {
@@ -41,10 +57,13 @@ type c07Req struct {
 }
 
 type c07Obs struct {
-	Obs    eng.Obs                      `json:"obs"`
-	Before map[string]map[string]string `json:"before"`        // objects just before the step under test
-	LedgB  []eng.LedgerRow              `json:"ledger_before"` // ledger just before the step under test
-	Raw    []c07Req                     `json:"raw"`           // raw mutating requests of the step under test
+	Obs    eng.Obs                        `json:"obs"`
+	Before map[string]map[string]string   `json:"before"`        // objects just before the step under test
+	LedgB  []eng.LedgerRow                `json:"ledger_before"` // ledger just before the step under test
+	Raw    []c07Req                       `json:"raw"`           // raw mutating requests of the step under test
+	Pre    []map[string]map[string]string `json:"pre"`           // per step: objects just before it (nil for edits)
+	Log    [][]c07Req                     `json:"log"`           // per step: EVERY request of an operation, GETs included, in arrival order
+	Stamps []c07Stamp                     `json:"stamps"`
 }
 
 func (*c07) ID() string { return "C07" }
@@ -70,8 +89,9 @@ func (*c07) Execute(ci any) any {
 	c := ci.(c07Case)
 	h := c.H
 	r := eng.NewRunner(h.Backend)
+	r.Srv.ByNS = true // objects are keyed by (namespace, kind, name)
 	for _, x := range h.Init {
-		r.Srv.Put(x.Kind, x.Name, x.Fields)
+		r.PutRes(x)
 	}
 	var o c07Obs
 	for i, s := range h.Steps {
@@ -81,25 +101,30 @@ func (*c07) Execute(ci any) any {
 		}
 		switch {
 		case s.Op != nil:
+			o.Pre = append(o.Pre, r.Srv.Snapshot())
 			n0 := len(r.Srv.Log)
 			so := r.RunOp(s.Op)
-			if i == c.Test {
-				for _, q := range r.Srv.Log[n0:] {
-					if q.Method != "GET" {
-						o.Raw = append(o.Raw, c07Req{q.Method, q.Key, q.Code})
-					}
+			var all []c07Req
+			for _, q := range r.Srv.Log[n0:] {
+				all = append(all, c07Req{q.Method, q.Key, q.Code})
+				if i == c.Test && q.Method != "GET" {
+					o.Raw = append(o.Raw, c07Req{q.Method, q.Key, q.Code})
 				}
 			}
+			o.Log = append(o.Log, all)
 			o.Obs.Steps = append(o.Obs.Steps, so)
 		case s.Edit != nil:
+			o.Pre = append(o.Pre, nil)
+			o.Log = append(o.Log, nil)
 			if s.Edit.Set != nil {
-				r.Srv.Put(s.Edit.Set.Kind, s.Edit.Set.Name, s.Edit.Set.Fields)
+				r.PutRes(*s.Edit.Set)
 			} else {
 				r.Srv.Remove(s.Edit.Del)
 			}
 			o.Obs.Steps = append(o.Obs.Steps, eng.StepObs{Outcome: "ok", Ledger: c06Ledger(r.Inner), Objs: r.Srv.Snapshot()})
 		}
 	}
+	o.Stamps = c07RunStamps(c)
 	return o
 }
 
@@ -257,11 +282,15 @@ func (*c07) Oracle(ci, oi any) []hx.Violation {
 			add("C07:bystander-changed", fmt.Sprintf("%s changed or removed the bystander object %s", what, k))
 		}
 	}
+	// 5. stamping forces the three ownership values (every operation of the history, and the
+	//    direct runs of setMetadataVisitor)
+	c07StampOracle(c, o, add)
 	return vs
 }
 
 func (*c07) CoqCase(ci, oi any) string {
-	return eng.CoqCase(ci.(c07Case).H, oi.(c07Obs).Obs)
+	o := oi.(c07Obs)
+	return fmt.Sprintf("mkC7 (%s)\n  %s", eng.CoqCase(ci.(c07Case).H, o.Obs), c07CoqStamps(o.Stamps))
 }
 
 func (*c07) Class(ci, oi any) string {
@@ -278,7 +307,26 @@ func (*c07) Class(ci, oi any) string {
 	}
 	p := append([]string{}, c.Place...)
 	sort.Strings(p)
-	return fmt.Sprintf("%s/%s/%s/%s", c.Scenario, take, out, strings.Join(p, "+"))
+	cls := fmt.Sprintf("%s/%s/%s/%s", c.Scenario, take, out, strings.Join(p, "+"))
+	if len(c.Metas) > 0 {
+		seen := map[string]bool{}
+		var m []string
+		for _, x := range c.Metas {
+			if !seen[x] && x != "none" {
+				seen[x] = true
+				m = append(m, x)
+			}
+		}
+		sort.Strings(m)
+		cls += "/meta:" + strings.Join(m, "+")
+	}
+	for _, n := range c.NS {
+		if n != "" {
+			cls += "/2ns"
+			break
+		}
+	}
+	return cls
 }
 
 func (*c07) NonTrivial(ci, _ any) bool {
